@@ -50,7 +50,9 @@ class Prop(PropBase):
                    'acceptance rule; the check rejects exactly the failing packets and changes nothing else; every single-bit flip of the covered data changes the CRC, of the stored value changes the value read) + build-variant correspondence')
     assumptions = ['ENABLE_TRANSFORM is exercised with the default (identity) transform parameters, as the property states',
                    'the epoll/recvbuf/wait options act below the model (receiver and queue): decided by the differential runs of the real builds, not by a theorem']
-    projection = {'kinds': {'cloud', 'p', 'pkt', 'err', 'ierr', 'temp', 'open', 'crash', 'nodrv', 'initfail'}, 'ignore_buf': True, 'ierr_last': True}
+    # error reports: all codes but WRONGMSOPBLKID (0x44), whose absence on RS128 / RS80 is a recorded C19 finding, not a build-option matter
+    projection = {'kinds': {'cloud', 'p', 'pkt', 'err', 'ierr', 'temp', 'open', 'crash', 'nodrv', 'initfail'}, 'ignore_buf': True, 'ierr_last': True,
+                  'err_codes': {str(c) for c in range(0x40, 0x60)} - {str(0x44)}}
     trusted_extra = ['python zlib.crc32 as the independent IEEE CRC-32 oracle of the CRC scenarios']
 
     def __init__(self):
